@@ -91,6 +91,15 @@ def div_dom(v, sh, W):
         r.append((bt << ((n - 1) * W)) | ((1 << ((n - 1) * W)) - 1))
         r.append((b << ((n - m) * W)) - 1)
         r.append((b >> W) << ((n - m + 1) * W))
+    # a partial remainder b - 1 (b - 2) at every word position j: when the normalised leading word of b is all ones the leading word of the
+    # running remainder is all ones too -- quotient-digit estimate and multiply-subtract borrow both B - 1, the boundary of the corrective addition
+    if m >= 1 and n > m:
+        for j in range(1, n - m + 1):
+            for s_ in (0, 1, B - 2):
+                for r1 in (b - 1, b - 2):
+                    if r1 >= 0:
+                        hi = (s_ * b + r1) << (j * W)
+                        r += [hi | ((1 << (j * W)) - 1), hi, hi | (b >> 1)]
     return [x for x in r if 0 <= x < top]
 def divisor_dom(lenexpr):
     def d(v, sh, W, name):
